@@ -97,6 +97,13 @@ func cmdRun(args []string) {
 		pprof.StartCPUProfile(f)
 		defer pprof.StopCPUProfile()
 	}
+	if mf := os.Getenv("GOSYM_MEMPROF"); mf != "" {
+		defer func() {
+			f, _ := os.Create(mf)
+			pprof.WriteHeapProfile(f)
+			f.Close()
+		}()
+	}
 	for _, h := range fs.Args() {
 		st, err := engine.Explore(p, h, engine.Opts{MaxSteps: *steps, MaxDepth: 400, MaxLoop: 100000, MapOrderSymbolic: *mapsym, WantReach: true, Params: pm, BoundIsViolation: *boundViol}, *workers, *solver, 10000, *maxPaths)
 		if err != nil {
@@ -104,7 +111,7 @@ func cmdRun(args []string) {
 			os.Exit(2)
 		}
 		fmt.Printf("%s: paths=%d ends=%v steps=%d obligations=%d discharged=%d violations=%d queries=%d solver=%v wall=%v\n",
-			h, st.Paths, st.ByEnd, st.Steps, st.Obligations, st.Discharged, len(st.Violations), st.Queries, st.SolverTime, st.Wall)
+			h, st.Paths, st.ByEnd, st.Steps, st.Obligations, st.Discharged, st.NViol, st.Queries, st.SolverTime, st.Wall)
 		var keys []string
 		for k := range st.Unsupported {
 			keys = append(keys, k)
